@@ -128,7 +128,7 @@ func checkC18(c *Ctx, r *Report) {
 		r4.guard(f, "return nil", rets, "ParseCertificate err==nil", edgeNil(isCallResult(1, "crypto/x509.ParseCertificate"), true), nil)
 		// RSA rejection: constants compared with cert.SignatureAlgorithm whose equal edge cannot reach success
 		rejected := map[int64]bool{}
-		for _, b := range f.Blocks {
+		for _, b := range blocksDeep(f) {
 			i := ifOf(b)
 			if i == nil {
 				continue
@@ -305,7 +305,7 @@ func checkC18(c *Ctx, r *Report) {
 	{
 		n := 0
 		for _, f := range c.FnsOfPkg(wtPkg) {
-			allInstrs(f, func(in ssa.Instruction) {
+			allInstrsIn(f, func(in ssa.Instruction) {
 				st, ok := in.(*ssa.Store)
 				if !ok {
 					return
@@ -331,7 +331,17 @@ func checkC18(c *Ctx, r *Report) {
 					if isNilConst(v) {
 						continue
 					}
-					r2.Check(isResultOfCall(v, 0, "(*"+cmT+").GetConfig") != nil, fnKey(f)+": each handshake is served the manager's configuration of that moment", instrPos(ret), 1, "",
+					// ... made inside the installed function (or a helper it plainly calls): a configuration looked up
+					// by the enclosing function and captured is the configuration of the moment the listener was made
+					ci := isResultOfCall(v, 0, "(*"+cmT+").GetConfig")
+					inside := false
+					if ci != nil {
+						for _, in := range findInstrs(g, func(in ssa.Instruction) bool { return in == ci.(ssa.Instruction) }) {
+							_ = in
+							inside = true
+						}
+					}
+					r2.Check(ci != nil && inside, fnKey(f)+": each handshake is served the manager's configuration of that moment", instrPos(ret), 1, "",
 						"the listener keeps serving the certificate that was current when it was created; after a roll-over it is no longer the advertised current certificate", "")
 				}
 			})
@@ -386,7 +396,7 @@ func checkC18(c *Ctx, r *Report) {
 				}
 			}
 			var fired []CFGEdge
-			for _, b := range g.Blocks {
+			for _, b := range blocksDeep(g) {
 				i := ifOf(b)
 				if i == nil {
 					continue
@@ -612,7 +622,13 @@ func checkC18(c *Ctx, r *Report) {
 			rets := successReturns(f)
 			isVer := func(v ssa.Value) bool {
 				u, ok := v.(*ssa.UnOp)
-				return ok && u.Op == token.MUL && u.X == ssa.Value(cell)
+				if !ok || u.Op != token.MUL {
+					return false
+				}
+				if fv, isFV := u.X.(*ssa.FreeVar); isFV { // read inside a local predicate of upgrade
+					return boundCell(fv) == cell && fv.Parent() != cb
+				}
+				return u.X == ssa.Value(cell)
 			}
 			r5.guard(f, "return conn", rets, "verified", edgeBool(isVer, true), nil)
 			r5.guard(f, "return conn", rets, "SecureOutbound err==nil", edgeNil(isCallResult(1, "(*"+noiseP+".SessionTransport).SecureOutbound"), true), nil)
